@@ -21,7 +21,7 @@
    Every step acts on the queue itself by at most one label of the base model (MsgQueue16.qstep16), so every
    theorem about base histories transfers (MsgQueueParkProofs.v).  No proofs here. *)
 From Coq Require Import List NArith Bool Lia.
-From GS Require Export Base MsgQueue MsgQueue16.
+From GS Require Export Base MsgQueue MsgQueue16 MsgQueueOrder.
 Import ListNotations.
 Open Scope N_scope.
 
@@ -124,7 +124,8 @@ Record pobs := {
   po_att : option att;      (* the attachment this step made *)
   po_wait : N;              (* reservations still pending in the allocator *)
   po_ready : N;             (* answered, not yet taken by their callers *)
-  po_granted : N            (* bytes of the answered reservations that were granted and are still accounted *)
+  po_granted : N;           (* bytes of the answered reservations that were granted and are still accounted *)
+  po_built : option txn     (* the transaction whose build callback queued its operations during this step *)
 }.
 
 Definition step_events (h : bool) (s : pst) (l : plabel) : list qev :=
@@ -140,13 +141,19 @@ Definition step_wire (h : bool) (s : pst) (l : plabel) : list wire :=
 Definition step_att (s : pst) (l : plabel) : option att :=
   match base_label s l with Some bl => attach16 (g_s (p_g s)) bl | None => None end.
 
+Definition step_built (s : pst) (l : plabel) : option txn :=
+  match base_label s l with
+  | Some bl => match attach16 (g_s (p_g s)) bl with Some _ => build_of bl | None => None end
+  | None => None
+  end.
+
 Definition p_observe (univ : list req) (h : bool) (s s' : pst) (l : plabel) : pobs :=
   let ob := q_observe univ (g_s (p_g s')) {| q_events := step_events h s l; q_wire := step_wire h s l |} in
   {| po_obs := {| qo_alloc := p_total s'; qo_sizes := qo_sizes ob; qo_nonempty := qo_nonempty ob; qo_phase := qo_phase ob;
                   qo_events := qo_events ob; qo_wire := qo_wire ob |};
      po_att := step_att s l;
      po_wait := N.of_nat (length (p_wait s')); po_ready := N.of_nat (length (p_ready s'));
-     po_granted := ready_sum (p_ready s') |}.
+     po_granted := ready_sum (p_ready s'); po_built := step_built s l |}.
 
 Fixpoint p_run (univ : list req) (s : pst) (ls : list (plabel * bool)) : list pobs :=
   match ls with
@@ -166,7 +173,8 @@ Definition pobs_eqb (a b : pobs) : bool :=
   N.eqb (qo_nonempty (po_obs a)) (qo_nonempty (po_obs b)) && N.eqb (qo_phase (po_obs a)) (qo_phase (po_obs b)) &&
   list_eqb wobs_eqb (qo_wire (po_obs a)) (qo_wire (po_obs b)) &&
   option_eqb att_eqb (po_att a) (po_att b) && N.eqb (po_wait a) (po_wait b) && N.eqb (po_ready a) (po_ready b) &&
-  N.eqb (po_granted a) (po_granted b).
+  N.eqb (po_granted a) (po_granted b) &&
+  option_eqb (fun x y : txn => N.eqb (fst x) (fst y) && N.eqb (N.of_nat (length (snd x))) (N.of_nat (length (snd y)))) (po_built a) (po_built b).
 
 Definition pcase_agrees (c : pcase) : bool :=
   let m := p_run (pc_univ c) (p_new (pc_limit c)) (pc_labels c) in
@@ -188,9 +196,17 @@ Definition mon15p_obs (o : pobs) : bool :=
    else if N.eqb (qo_phase q) 0 then N.eqb (qo_alloc q) (sum_n (qo_sizes q) + po_granted o) else true).
 Definition pcase_mon15 (c : pcase) : bool := forallb mon15p_obs (pc_obs c).
 
+(* C17, content order, on the implementation's observations: the queue log is what the build callbacks queued, in
+   the order they ran; the wire is what SendMsg was given when it returned ok *)
+Definition pcase_mon17 (c : pcase) : bool :=
+  mon17 (flat_map (fun o => match po_built o with Some x => items_of (fst x) (snd x) | None => [] end) (pc_obs c))
+        (flat_map (fun o => qo_wire (po_obs o)) (pc_obs c)).
+
 (* monomorphic constructors for the generated case files *)
+Definition bt_ (r : req) (ops : list top) : option txn := Some (r, ops).
+Definition no_bt : option txn := None.
 Definition pl_ (l : plabel) (h : bool) : plabel * bool := (l, h).
 Definition po_ (al : N) (sizes : list N) (ne ph_ : N) (evs : list (list (N * N)))
-    (wr : list (list (req * (N * list (link * bool))) * list link)) (a : option att) (w r g : N) : pobs :=
+    (wr : list (list (req * (N * list (link * bool))) * list link)) (a : option att) (w r g : N) (bt : option txn) : pobs :=
   {| po_obs := {| qo_alloc := al; qo_sizes := sizes; qo_nonempty := ne; qo_phase := ph_; qo_events := evs; qo_wire := wr |};
-     po_att := a; po_wait := w; po_ready := r; po_granted := g |}.
+     po_att := a; po_wait := w; po_ready := r; po_granted := g; po_built := bt |}.
